@@ -166,7 +166,7 @@ FNS = [
                "old(self).q@.len() < BUFFER_SIZE ==> r is Ok && final(self).q@ == old(self).q@.push(setter.value@),"
                "old(self).q@.len() >= BUFFER_SIZE ==> (r matches RetryResult::Transient { input, .. } && input == setter) && final(self).q == old(self).q && final(self).streams_manager == old(self).streams_manager,"
                "old(self).q@.len() == 0 ==> final(self).streams_manager.wakes@[0] > old(self).streams_manager.wakes@[0]"),
-    fn("send_with_async", props=["C01", "C16", "C20"],
+    fn("send_with_async", props=["C01", "C02", "C16", "C20"],
        sig="pub fn send_with_async(&mut self, setter: Setter) -> (r: RetryResult<Setter>)", sig_anchor=r"async fn send_with_async<F:",
        rules=COMMON + [SETTER_VALUE,
                        Rule("R15-retry-async", r"self\.send\(item\)\s*\.retry_with_async\(\|item\| future::ready\(self\.send\(item\)\)\)\s*\.(\w+)\(([^;]*?)\)\s*\.await;",
